@@ -124,6 +124,15 @@ func (C19) Generate(c *Ctx, r *Rand, index int) *Scenario {
 		}
 		sc.Plan.Readers = []ReaderPlan{rp}
 	case "write-fault":
+		opts.Big = rs.Chance(1, 3)
+		if opts.Big {
+			e = Expr{S: Pick(rs, []string{".", ".", ".pad", "[.pad, .id]", ".pad | length"})}
+			for _, f := range []string{"-N", "-0", "-r", "-e"} {
+				if rs.Chance(1, 5) {
+					argv = append(argv, f)
+				}
+			}
+		}
 		sc.Files = GenMultiFiles(r.Fork("files"), opts)
 		addOut()
 		finish(e.Combined())
